@@ -4,7 +4,9 @@
 //! TLC validates every record against `spec/Migration/{Scheduling,Classify}.tla`.
 //!
 //! The RNG handed to the code is the *environment*: ChaCha20 seeded per record, or one of the
-//! degenerate streams `zero`, `ones`, `alt` (0x5555.., 0xAAAA.. alternating), `counter` (0,1,2,..).
+//! degenerate streams `zero`, `ones`, `alt` (0x5555.., 0xAAAA.. alternating), `counter` (0,1,2,..),
+//! `lemire` (words ceil(j 2^64 / b), which land in the rejection zone of the index sampler),
+//! `ages` (words 2^(a-1), a uniform in 1..8: uniformly distributed anchor ages).
 //! Every stream is wrapped in a word budget: a call that consumes more than BUDGET words is cut
 //! off (panic caught by `guarded`) and logged with outcome "spin" -- the specification says for
 //! which (stream, call) pairs the rejection loops must terminate.
@@ -14,6 +16,7 @@
 //!
 //! usage: c17_driver sched    <out.ndjson> <scale>      (scale 1 = about 20 000 records)
 //!        c17_driver classify <out.ndjson> <chains>     (the whole table + that many chains)
+//!        c17_driver dtx      <out.ndjson> <count>      (classify_decrypted_tx on assembled transactions)
 //!        c17_driver rerun    <in.ndjson> <out.ndjson>      (re-executes the inputs of each record)
 //! stdout: one JSON summary object.
 use std::num::NonZeroU32;
@@ -35,7 +38,15 @@ use zcash_pool_migration::scheduling::{
     schedule_broadcast_heights, schedule_prep_broadcast_heights, schedule_sync_wakeups, shuffle_in_place,
     shuffle_indices,
 };
-use zcash_protocol::TxId;
+use proptest::strategy::{Strategy, ValueTree};
+use proptest::test_runner::{Config, RngAlgorithm, TestRng, TestRunner};
+use zcash_client_backend::data_api::zip318::classify_decrypted_tx;
+use zcash_client_backend::{DecryptedOutput, TransferType};
+use zcash_primitives::transaction::TransactionData;
+use zcash_protocol::consensus::BranchId;
+use zcash_protocol::memo::MemoBytes;
+use zcash_protocol::value::ZatBalance;
+use zcash_protocol::{ShieldedPool, TxId};
 use zcash_protocol::consensus::BlockHeight;
 use zcash_protocol::value::Zatoshis;
 use zcash_protocol::zip318::{
@@ -75,6 +86,12 @@ enum Kind {
     Ones,
     Alt(u64),
     Counter(u64),
+    /// words ceil(j * 2^64 / b) for small b: for an index draw with bound b the product's low half
+    /// is below b (Lemire's rejection zone); for b a power of two the word has >= 61 trailing zeros
+    Lemire(Box<ChaCha20Rng>),
+    /// words 2^(a-1), a uniform in 1..=8: the coin-flip age is a, uniformly (old and over-age
+    /// anchors are as frequent as recent ones); index draws yield 0, delays 0
+    Ages(Box<ChaCha20Rng>),
 }
 
 struct Stream {
@@ -90,6 +107,8 @@ impl Stream {
             "ones" => Kind::Ones,
             "alt" => Kind::Alt(0),
             "counter" => Kind::Counter(0),
+            "lemire" => Kind::Lemire(Box::new(ChaCha20Rng::seed_from_u64(seed))),
+            "ages" => Kind::Ages(Box::new(ChaCha20Rng::seed_from_u64(seed))),
             other => panic!("unknown stream {other}"),
         };
         Stream { kind, used: 0 }
@@ -118,6 +137,12 @@ impl RngCore for Stream {
                 *i += 1;
                 v
             }
+            Kind::Lemire(r) => {
+                let b = r.gen_range(2..=9u128);
+                let j = r.gen_range(0..b);
+                ((j << 64).div_ceil(b)) as u64
+            }
+            Kind::Ages(r) => 1u64 << r.gen_range(0..8u32),
         }
     }
     fn fill_bytes(&mut self, dest: &mut [u8]) {
@@ -227,6 +252,25 @@ fn rec_expiry(hs: &[u32]) -> Value {
     let r = guarded(|| hs.iter().map(|h| hu(expiry_height(bh(*h)))).collect::<Vec<u32>>());
     json!({"a": "expiry", "oc": oc(&r), "hs": hs.iter().map(|h| enc(*h)).collect::<Vec<_>>(),
            "es": r.unwrap_or_default().iter().map(|h| enc(*h)).collect::<Vec<_>>()})
+}
+
+/// The trait-level forms (default ZIP 318 constants): canonical_expiry, is_canonical_expiry against a
+/// reference height, and the height-independent is_canonical_expiry_value, on probe expiries `pe`.
+fn rec_cexp(hs: &[u32], pe: &[u32]) -> Value {
+    let r = guarded(|| {
+        hs.iter()
+            .zip(pe)
+            .map(|(h, e)| {
+                (hu(Zip.canonical_expiry(bh(*h))), Zip.is_canonical_expiry(bh(*e), bh(*h)), Zip.is_canonical_expiry_value(bh(*e)))
+            })
+            .collect::<Vec<_>>()
+    });
+    let v = r.clone().unwrap_or_default();
+    json!({"a": "cexp", "oc": oc(&r), "hs": hs.iter().map(|h| enc(*h)).collect::<Vec<_>>(),
+           "pe": pe.iter().map(|h| enc(*h)).collect::<Vec<_>>(),
+           "ce": v.iter().map(|x| enc(x.0)).collect::<Vec<_>>(),
+           "isc": v.iter().map(|x| x.1).collect::<Vec<_>>(),
+           "iscv": v.iter().map(|x| x.2).collect::<Vec<_>>()})
 }
 
 fn rec_shuffle(rng: &str, rs: u64, n: usize) -> Value {
@@ -430,6 +474,8 @@ fn rerun_one(r: &Value) -> Value {
                                  dec(&r["start"]), u(&r["n"]) as usize),
         "zipsched" => rec_zipsched(&rng, rs, dec(&r["start"]), u(&r["n"]) as usize),
         "expiry" => rec_expiry(&r["hs"].as_array().unwrap().iter().map(dec).collect::<Vec<_>>()),
+        "cexp" => rec_cexp(&r["hs"].as_array().unwrap().iter().map(dec).collect::<Vec<_>>(),
+                           &r["pe"].as_array().unwrap().iter().map(dec).collect::<Vec<_>>()),
         "shuffle" => rec_shuffle(&rng, rs, u(&r["n"]) as usize),
         "shufflein" => rec_shuffle_in_place(&rng, rs, &r["inp"].as_array().unwrap().iter().map(u).collect::<Vec<_>>()),
         "anchor" => rec_anchor(&rng, rs, u(&r["iv"]), dec(&r["act"]), dec(&r["fund"]), dec(&r["tip"])),
@@ -478,7 +524,9 @@ impl Gen {
     fn stream(&mut self) -> (&'static str, u64) {
         let rs = self.g.gen_range(0..2_000_000_000u64);
         let k = match self.g.gen_range(0..100) {
-            0..=59 => "chacha",
+            0..=44 => "chacha",
+            45..=49 => "ages",
+            50..=59 => "lemire",
             60..=69 => "zero",
             70..=79 => "ones",
             80..=89 => "alt",
@@ -564,14 +612,23 @@ fn gen_sched(seed: u64, scale: usize, w: &mut NdjsonWriter) {
     for i in 0..1500 * scale {
         let (m, c) = g.dist();
         let n = g.g.gen_range(0..=12usize);
-        let start = clamp(g.base(n as i64 * c as i64 + 3));
+        let mut start = clamp(g.base(n as i64 * c as i64 + 3));
+        if g.g.gen_bool(0.25) {
+            // just below a multiple of the expiry modulus, so that the schedule straddles it
+            let k = (start as i64 / 34_560).max(1);
+            start = clamp(k * 34_560 - g.g.gen_range(0..=(2 * m as i64 + 2)));
+        }
         let (k, rs) = g.stream();
         let which = ["transfer", "prep", "schedule"][i % 3];
         w.emit(&rec_heights(which, k, rs, m, c, start, n));
     }
     for _ in 0..150 * scale {
         let n = g.g.gen_range(0..=12usize);
-        let start = clamp(g.base(6000));
+        let mut start = clamp(g.base(6000));
+        if g.g.gen_bool(0.4) {
+            let k = (start as i64 / 34_560).max(1);
+            start = clamp(k * 34_560 - g.g.gen_range(0..=200));
+        }
         let (k, rs) = g.stream();
         w.emit(&rec_zipsched(k, rs, start, n));
     }
@@ -591,6 +648,23 @@ fn gen_sched(seed: u64, scale: usize, w: &mut NdjsonWriter) {
     }
     for chunk in hs.chunks(50) {
         w.emit(&rec_expiry(chunk));
+        // probe expiries: multiples of the modulus around the height, ordinary expiries, neighbours
+        let pe: Vec<u32> = chunk
+            .iter()
+            .map(|h| {
+                let h = *h as i64;
+                let m = 34_560i64;
+                match g.g.gen_range(0..6) {
+                    0 => clamp(h + 40),
+                    1 => clamp((h / m + g.g.gen_range(0..4)) * m),
+                    2 => clamp((h / m + 2) * m + g.g.gen_range(-1..=1)),
+                    3 => clamp(g.g.gen_range(0..4) * m),
+                    4 => clamp(UMAX - g.g.gen_range(0..3)),
+                    _ => clamp((h / m + 2) * m),
+                }
+            })
+            .collect();
+        w.emit(&rec_cexp(chunk, &pe));
     }
 
     // ---- shuffles
@@ -636,7 +710,10 @@ fn gen_sched(seed: u64, scale: usize, w: &mut NdjsonWriter) {
                 g.near(t - k * iv as i64, iv, 1)
             }
         };
-        let (k, rs) = g.stream();
+        let (mut k, rs) = g.stream();
+        if g.g.gen_bool(0.15) {
+            k = "ages";
+        }
         w.emit(&rec_anchor(k, rs, iv, act, fund, tip));
         if g.g.gen_bool(0.3) {
             w.emit(&rec_earliest(iv, act, fund));
@@ -648,7 +725,10 @@ fn gen_sched(seed: u64, scale: usize, w: &mut NdjsonWriter) {
         let bcast = g.near(b, iv, 4);
         let back = g.g.gen_range(0..7);
         let prior = g.near(bcast as i64 - back * iv as i64, iv, 1);
-        let (k, rs) = g.stream();
+        let (mut k, rs) = g.stream();
+        if g.g.gen_bool(0.15) {
+            k = "ages";
+        }
         w.emit(&rec_redraw(k, rs, iv, prior, bcast));
     }
 
@@ -1003,6 +1083,153 @@ fn gen_classify(seed: u64, chains: usize, w: &mut NdjsonWriter) {
     }
 }
 
+
+// ------------------------------------------------------------------------------------------------
+// classify_decrypted_tx: evidence assembled from a (generated) transaction and decrypted outputs
+
+type OBundle = orchard::Bundle<orchard::bundle::Authorized, ZatBalance>;
+type DOut = DecryptedOutput<(orchard::Note, orchard::ValuePool), u32>;
+
+fn sample<S: Strategy>(runner: &mut TestRunner, s: &S) -> S::Value {
+    s.new_tree(runner).expect("strategy").current()
+}
+
+/// re-issues a generated bundle under the bundle version of the v6 slot it goes into
+fn with_version(b: OBundle, v: orchard::bundle::BundleVersion) -> OBundle {
+    let mut byte = u8::from(b.flags().spends_enabled()) | (u8::from(b.flags().outputs_enabled()) << 1);
+    if v == orchard::bundle::BundleVersion::ironwood_v3() {
+        byte |= 0b100;
+    }
+    let flags = orchard::bundle::Flags::from_byte(byte, v).expect("flags");
+    orchard::Bundle::try_from_parts(b.actions().clone(), flags, *b.value_balance(), *b.anchor(), b.authorization().clone(), v)
+        .expect("bundle")
+}
+
+fn gen_dtx(seed: u64, count: usize, w: &mut NdjsonWriter) {
+    use zcash_primitives::transaction::components::{orchard::testing as t_orch, sapling::testing as t_sap};
+    let mut seed_bytes = [0u8; 32];
+    seed_bytes[..8].copy_from_slice(&(seed ^ 0xD7C5).to_le_bytes());
+    let mut runner = TestRunner::new_with_rng(Config::default(), TestRng::from_seed(RngAlgorithm::ChaCha, &seed_bytes));
+    let mut g = ChaCha20Rng::seed_from_u64(seed ^ 0xD7);
+    // pools of parts (generated once; a transaction is a combination)
+    let orch_counts = [2usize, 16, 1, 3, 15, 17];
+    let orch: Vec<OBundle> = orch_counts
+        .iter()
+        .map(|n| with_version(sample(&mut runner, &t_orch::arb_bundle(*n)), orchard::bundle::BundleVersion::orchard_v3()))
+        .collect();
+    let iron: Vec<OBundle> = [1usize, 2, 3]
+        .iter()
+        .map(|n| with_version(sample(&mut runner, &t_orch::arb_bundle(*n)), orchard::bundle::BundleVersion::ironwood_v3()))
+        .collect();
+    let mut tps = vec![];
+    while tps.len() < 3 {
+        if let Some(b) = sample(&mut runner, &zcash_transparent::bundle::testing::arb_bundle()) {
+            tps.push(b);
+        }
+    }
+    let mut saps = vec![];
+    for _ in 0..40 {
+        if saps.len() < 2 {
+            if let Some(b) = sample(&mut runner, &t_sap::arb_bundle()) {
+                saps.push(b);
+            }
+        }
+    }
+    let note = |runner: &mut TestRunner, v: u64, ver| {
+        sample(runner, &orchard::note::testing::arb_note(orchard::value::NoteValue::from_raw(v), ver))
+    };
+    for _ in 0..count {
+        // aim at a shape (preparation-like, crossing-like, anything), then let single clauses go wrong
+        let shape = g.gen_range(0..10);
+        let off = |g: &mut ChaCha20Rng| g.gen_bool(0.12);
+        let (mut o, mut i) = match shape {
+            0..=3 => (Some(1usize), None),          // 16 Orchard actions, no Ironwood bundle
+            4..=7 => (Some(0usize), Some(0usize)),  // 2 Orchard actions, 1 Ironwood action
+            _ => (Some(g.gen_range(0..orch.len())), Some(g.gen_range(0..iron.len()))),
+        };
+        if off(&mut g) {
+            o = if g.gen_bool(0.3) { None } else { Some(g.gen_range(0..orch.len())) };
+        }
+        if off(&mut g) {
+            i = if g.gen_bool(0.4) { None } else { Some(g.gen_range(0..iron.len())) };
+        }
+        let tp = if g.gen_bool(0.93) { None } else { Some(g.gen_range(0..tps.len())) };
+        let sp = if g.gen_bool(0.95) || saps.is_empty() { None } else { Some(g.gen_range(0..saps.len())) };
+        let m = 34_560i64;
+        let expiry = match g.gen_range(0..16) {
+            0 => clamp(g.gen_range(0..UMAX)),
+            1 => 0,
+            2 => clamp(m),
+            3 => clamp(g.gen_range(2..100) * m + [-1, 1, 40][g.gen_range(0..3)]),
+            4 => clamp(2 * m),
+            5 => clamp(124_274 * m),
+            _ => clamp(g.gen_range(2..100) * m),
+        };
+        // what the wallet could decrypt
+        let kinds = ["int", "in", "out", "wint"];
+        let n_oo = if g.gen_bool(0.85) { g.gen_range(1..=3) } else { 0 };
+        let orch_outs: Vec<&str> = (0..n_oo).map(|_| if g.gen_bool(0.93) { "int" } else { kinds[g.gen_range(0..4)] }).collect();
+        let n_io = match g.gen_range(0..12) {
+            0 => 0,
+            1 => 2,
+            2 => 3,
+            _ => 1,
+        };
+        let iw_vals: Vec<u64> = (0..n_io)
+            .map(|_| match g.gen_range(0..5) {
+                0 => VAL_NONCANON[g.gen_range(0..VAL_NONCANON.len() - 1)],
+                _ => VAL_CANON[g.gen_range(0..VAL_CANON.len())],
+            })
+            .collect();
+        let tt = |k: &str| match k {
+            "int" => TransferType::AccountInternal,
+            "in" => TransferType::Incoming,
+            "out" => TransferType::Outgoing,
+            _ => TransferType::WalletInternal,
+        };
+        let oo: Vec<DOut> = orch_outs
+            .iter()
+            .enumerate()
+            .map(|(ix, k)| {
+                DecryptedOutput::new(ix, (note(&mut runner, 1000 + ix as u64, orchard::note::NoteVersion::V2), orchard::ValuePool::Orchard),
+                                     ShieldedPool::Orchard, 0u32, MemoBytes::empty(), tt(k))
+            })
+            .collect();
+        let io: Vec<DOut> = iw_vals
+            .iter()
+            .enumerate()
+            .map(|(ix, v)| {
+                DecryptedOutput::new(ix, (note(&mut runner, *v, orchard::note::NoteVersion::V3), orchard::ValuePool::Ironwood),
+                                     ShieldedPool::Ironwood, 0u32, MemoBytes::empty(), TransferType::Incoming)
+            })
+            .collect();
+        let data = TransactionData::from_parts_v6(
+            BranchId::Nu6_3,
+            0,
+            bh(expiry),
+            tp.map(|k| tps[k].clone()),
+            sp.map(|k| saps[k].clone()),
+            o.map(|k| orch[k].clone()),
+            i.map(|k| iron[k].clone()),
+        );
+        let built = guarded(|| data.freeze());
+        let tx = match built {
+            Ok(Ok(tx)) => tx,
+            _ => panic!("harness: could not assemble a v6 transaction"),
+        };
+        // the projection of the transaction is read with the harness' own eyes (zcash_primitives accessors)
+        let src = tx.orchard_bundle().map_or(0, |b| b.actions().len());
+        let dst = tx.ironwood_bundle().map_or(0, |b| b.actions().len());
+        let (tpin, tpout) = tx.transparent_bundle().map_or((0, 0), |b| (b.vin.len(), b.vout.len()));
+        let (ssp, sout) = tx.sapling_bundle().map_or((0, 0), |b| (b.shielded_spends().len(), b.shielded_outputs().len()));
+        let r = guarded(|| label(classify_decrypted_tx(&tx, &oo, &io, &Zip)));
+        w.emit(&json!({"a": "dtx", "src": src, "dst": dst, "tpin": tpin, "tpout": tpout, "ssp": ssp, "sout": sout,
+                       "expiry": enc(hu(tx.expiry_height())), "oouts": orch_outs,
+                       "ivals": iw_vals.iter().map(|v| digits(*v)).collect::<Vec<_>>(),
+                       "oc": oc(&r), "r": r.unwrap_or("X")}));
+    }
+}
+
 fn main() {
     quiet_panics();
     let args: Vec<String> = std::env::args().collect();
@@ -1016,6 +1243,11 @@ fn main() {
         "classify" => {
             let mut w = NdjsonWriter::create(&args[2]);
             gen_classify(seed, args[3].parse().expect("chains"), &mut w);
+            w.finish()
+        }
+        "dtx" => {
+            let mut w = NdjsonWriter::create(&args[2]);
+            gen_dtx(seed, args[3].parse().expect("count"), &mut w);
             w.finish()
         }
         "rerun" => {
